@@ -19,7 +19,7 @@ from vf.runner import excluded, ok, trivial, violation
 
 ID = "C20"
 LEVEL = "exploration"
-BUDGET = {"quick": 150, "thorough": 5000}
+BUDGET = {"quick": 150, "thorough": 20000}
 RULE = (
     "case = (kind, data); data entries are +-m*2^e with drawn mantissa and exponent; distinct = "
     "SHA-256 of the case; non-trivial = the decisive entries (nominal values / gradient components "
